@@ -660,6 +660,9 @@ static Token *subst(Token *tok, MacroArg *args) {
       Token *arg_tok = tok;
       Token *rhs = tok->next->next;
 
+      if (rhs->kind == TK_EOF)
+        error_tok(tok->next, "'##' cannot appear at end of macro expansion");
+
       // The result takes the place of the parameter in the replacement
       // list, so its first token has the white space of the parameter.
       Token *prev = cur;
